@@ -587,6 +587,20 @@ def run(report, p):
                 bad_use = u
         r11.check(bad_use is None, cf, bad_use if bad_use is not None else asg, f"`{norm(bad_use)[:50] if bad_use is not None else ''}` dereferences the first recorded entry of the missing path without a test that there is one: a folder recorded without directory hashes (-n) has no entry, so `create -dr -n` on a tree where a recorded folder was removed (its file moved elsewhere) aborts with AttributeError instead of reporting the folder missing", construct=f"{nm_} dereferenced without None test")
 
+    # ------------------------------------------------------------------ R17.12
+    r12 = report.rule(
+        "R17.12",
+        "a previous path is stored relative to the history that records the file: the value of every `.previous_path = ...` in the rename matching is the second "
+        "component of `find_history_for_path(<missing path>)` (the routed, history-relative path) - not the root-relative path it was routed from (for a file inside "
+        "a nested history the two differ: verify / diff / create then look the old name up under a path the nested history never recorded)",
+        1,
+    )
+    for st in stores:
+        r12.instance(cf, st, norm(st)[:80])
+        os_ = [x for o in pr.origins(st.value, cf) for x in alts(o)]
+        routed = bool(os_) and all(o[0] == "elem" and is_call(o[1], "find_history_for_path") and o[2] == ("const", 1) for o in os_)
+        r12.check(routed, cf, st, f"`{norm(st)[:70]}` stores `{show(os_[0])[:90] if os_ else norm(st.value)}` as previous path, which is not the history-relative component of the routing of the missing path: for a file renamed inside a nested history (re-hashed because the run uses another format than the record) the nested manifest gets a root-relative <previousPath>, and verify / diff / create report the old name missing afterwards", construct="previous_path not the routed history-relative path")
+
     # ------------------------------------------------------------------ R17.10
     r10 = report.rule(
         "R17.10",
